@@ -513,8 +513,11 @@ class CustomGateMatrixFactory:
         return self.gate_definition.params_ordering
 
     def __call__(self, *gate_params):
+        # Simultaneous substitution: an argument may mention the definition's own
+        # symbols (e.g. gate_def(b, a)) and must not be substituted again.
         return self.matrix.subs(
-            {symbol: arg for symbol, arg in zip(self.params_ordering, gate_params)}
+            {symbol: arg for symbol, arg in zip(self.params_ordering, gate_params)},
+            simultaneous=True,
         )
 
     def __eq__(self, other):
